@@ -441,6 +441,13 @@ impl Prop for Histories {
                 for (k, op) in c.ops.iter().enumerate() {
                     match op {
                         Op::Count => ensure!(r.shape_count().ok() == Some(n), "count-changes", "{}: shape_count = {:?}", whole(&c.ops, k), r.shape_count().ok()),
+                        Op::Seek(x) if c.reader == 6 => {
+                            // without an index the seek is refused; a refused call must leave shapes and rows where they were
+                            match r.seek(*x as usize) {
+                                Err(shapefile::Error::MissingIndexFile) => {}
+                                other => fail!("seek-error", "{}: seek({}) on a reader without index returned {:?}", whole(&c.ops, k), x, other.map_err(|e| err_str(&e))),
+                            }
+                        }
                         Op::Seek(x) => {
                             r.seek(*x as usize).map_err(|e| Fail::new("seek-error", format!("{}: {}", whole(&c.ops, k), err_str(&e))))?;
                             model.pos = vec![(*x as usize).min(n)];
@@ -721,9 +728,12 @@ impl EnumProp for Histories {
                     blocks.push(Block { n, equal, layout: 2, reader: 1, alphabet: a1.clone(), len: l });
                     blocks.push(Block { n, equal, layout: 2, reader: 2, alphabet: a2.clone(), len: l + 1 });
                 }
-                // the complete Reader without an index: iterations only
+                // the complete Reader without an index: iterations, and seeks (which are refused)
+                let mut a6 = a2.clone();
+                a6.push(Op::Seek(1));
+                a6.push(Op::Seek(n));
                 for l in 1..=len + 1 {
-                    blocks.push(Block { n, equal, layout: 0, reader: 6, alphabet: a2.clone(), len: l });
+                    blocks.push(Block { n, equal, layout: 0, reader: 6, alphabet: a6.clone(), len: l });
                 }
                 // a ShapeReader used first, then handed to Reader::new
                 for l in 2..=len - 1 {
